@@ -367,11 +367,20 @@ tgen_leaf!(String, |t, g| {
 tgen_leaf!(i32, |t, _g| ir::gen_i32(t));
 tgen_leaf!(i64, |t, _g| t.bits() as i64);
 tgen_leaf!(bool, |t, _g| t.chance(1, 2));
-tgen_leaf!(SafeLong, |t, _g| SafeLong::new(ir::gen_safelong(t)).unwrap());
+tgen_leaf!(SafeLong, |t, _g| {
+    let v = ir::gen_safelong(t);
+    SafeLong::new(v).unwrap_or_else(|e| panic!("{}: SafeLong::new({}) failed: {}", crate::runner::VALID_VALUE_REFUSED, v, e))
+});
 tgen_leaf!(DoubleKey, |t, _g| DoubleKey(ir::gen_f64(t)));
 tgen_leaf!(Uuid, |t, _g| Uuid::from_u128(((t.bits() as u128) << 64) | t.bits() as u128));
-tgen_leaf!(ResourceIdentifier, |t, _g| ResourceIdentifier::new(&ir::gen_rid_string(t, None)).unwrap());
-tgen_leaf!(BearerToken, |t, _g| BearerToken::new(&ir::gen_token_string(t, None)).unwrap());
+tgen_leaf!(ResourceIdentifier, |t, _g| {
+    let s = ir::gen_rid_string(t, None);
+    ResourceIdentifier::new(&s).unwrap_or_else(|e| panic!("{}: ResourceIdentifier::new({:?}) failed: {}", crate::runner::VALID_VALUE_REFUSED, s, e))
+});
+tgen_leaf!(BearerToken, |t, _g| {
+    let s = ir::gen_token_string(t, None);
+    BearerToken::new(&s).unwrap_or_else(|e| panic!("{}: BearerToken::new({:?}) failed: {}", crate::runner::VALID_VALUE_REFUSED, s, e))
+});
 tgen_leaf!(DateTime<Utc>, |t, _g| ir::gen_datetime_string(t).parse().unwrap());
 tgen_leaf!(ByteBuf, |t, _g| {
     // heavy-tailed: encoders that work in blocks must also meet values longer than a block
@@ -389,6 +398,22 @@ impl<T: TGen> TGen for Option<T> {
         }
     }
 }
+/// A serde newtype struct that is not `transparent`: at the root of a document it enters the
+/// deserializers through `deserialize_newtype_struct` (hand-written aliases look like this).
+#[derive(Serialize, Deserialize, Clone, Debug, PartialEq)]
+pub struct Nt<T>(pub T);
+
+impl<T: TGen> TGen for Nt<T> {
+    fn tgen(t: &mut Tape, g: &mut GenCfg, d: u32) -> Self {
+        Nt(T::tgen(t, g, d))
+    }
+}
+impl<T: Spec> Spec for Nt<T> {
+    fn spec(&self, m: Mode) -> Doc {
+        self.0.spec(m)
+    }
+}
+
 impl<T: TGen> TGen for Box<T> {
     fn tgen(t: &mut Tape, g: &mut GenCfg, d: u32) -> Self {
         Box::new(T::tgen(t, g, d))
@@ -981,6 +1006,14 @@ impl PipeEngine {
             7 => root!(ByteBuf, "root binary"),
             8 => root!(Option<BTreeMap<String, Vec<Option<ByteBuf>>>>, "root optional<map<string,list<optional<binary>>>>"),
             9 => root!(Option<Vec<SafeLong>>, "root optional<list<safelong>>"),
+            10 => match ctx.draw(6) {
+                0 => root!(Nt<D>, "root newtype(double)"),
+                1 => root!(Nt<ByteBuf>, "root newtype(binary)"),
+                2 => root!(Nt<BTreeMap<DoubleKey, D>>, "root newtype(map<double,double>)"),
+                3 => root!(Nt<BTreeMap<bool, ByteBuf>>, "root newtype(map<boolean,binary>)"),
+                4 => root!(Nt<Vec<Nt<D>>>, "root newtype(list<newtype(double)>)"),
+                _ => root!(Nt<Option<BTreeMap<ByteBuf, D>>>, "root newtype(optional<map<binary,double>>)"),
+            },
             _ => {
                 let v: plain::Tree = ctx.with_tape(|t| TGen::tgen(t, &mut g, 0));
                 self.c01_value(ctx, &v, faults, "model::Tree");
@@ -1200,18 +1233,58 @@ impl PipeEngine {
             extras_placed: vec![],
             depth_cap: ctx.with_tape(|t| *t.pick(&[2u32, 4, 8])),
         };
-        let newer: skewed::Tree = ctx.with_tape(|t| TGen::tgen(t, &mut g, 0));
-        let expected = newer.strip();
+        // the root of the document: the tree, or one of its parts on its own - a newtype, an enum,
+        // a bare object, collections of objects
+        match ctx.draw(10) {
+            0 => {
+                let newer: skewed::Wrap = ctx.with_tape(|t| TGen::tgen(t, &mut g, 0));
+                let expected = plain::Wrap(newer.0.strip());
+                self.c05_skewed(ctx, &g, &newer, &expected, faults, "model::Wrap (root newtype)")
+            }
+            1 => {
+                let newer: Nt<skewed::Leaf> = ctx.with_tape(|t| TGen::tgen(t, &mut g, 0));
+                let expected = Nt(newer.0.strip());
+                self.c05_skewed(ctx, &g, &newer, &expected, faults, "root newtype(Leaf)")
+            }
+            2 => {
+                let newer: skewed::Var = ctx.with_tape(|t| TGen::tgen(t, &mut g, 0));
+                let expected = newer.strip();
+                self.c05_skewed(ctx, &g, &newer, &expected, faults, "model::Var (root enum)")
+            }
+            3 => {
+                let newer: Vec<Option<skewed::Leaf>> = ctx.with_tape(|t| TGen::tgen(t, &mut g, 0));
+                let expected: Vec<Option<plain::Leaf>> = newer.iter().map(|l| l.as_ref().map(|l| l.strip())).collect();
+                self.c05_skewed(ctx, &g, &newer, &expected, faults, "root list<optional<Leaf>>")
+            }
+            4 => {
+                let newer: BTreeMap<String, Nt<skewed::Leaf>> = ctx.with_tape(|t| TGen::tgen(t, &mut g, 0));
+                let expected: BTreeMap<String, Nt<plain::Leaf>> = newer.iter().map(|(k, l)| (k.clone(), Nt(l.0.strip()))).collect();
+                self.c05_skewed(ctx, &g, &newer, &expected, faults, "root map<string,newtype(Leaf)>")
+            }
+            _ => {
+                let newer: skewed::Tree = ctx.with_tape(|t| TGen::tgen(t, &mut g, 0));
+                let expected = newer.strip();
+                self.c05_skewed(ctx, &g, &newer, &expected, faults, "model::Tree")
+            }
+        }
+    }
+
+    fn c05_skewed<N, P>(&self, ctx: &Ctx, g: &GenCfg, newer: &N, expected: &P, faults: bool, what: &str)
+    where
+        N: Serialize + DeserializeOwned + Debug,
+        P: DeserializeOwned + PartialEq + Debug,
+    {
         let mode = if ctx.chance(1, 2) { Mode::Json } else { Mode::Smile };
         let pretty = mode == Mode::Json && ctx.chance(1, 4);
         let bytes = match mode {
-            Mode::Json => ser_json(&newer, pretty),
-            Mode::Smile => smile::to_vec(&newer).map_err(|e| e.to_string()),
+            Mode::Json => ser_json(newer, pretty),
+            Mode::Smile => smile::to_vec(newer).map_err(|e| e.to_string()),
         };
         let Ok(bytes) = bytes else {
             ctx.violation("C05", "skewed_serialize_failed", format!("{:?}", bytes.err()));
             return;
         };
+        ctx.sig(what);
         ctx.sig(if mode == Mode::Json { "json" } else { "smile" });
         ctx.sig(size_class(bytes.len()));
         for x in &g.extras_placed {
@@ -1237,11 +1310,11 @@ impl PipeEngine {
             // history on this thread: the newer peer's own types (same names, more members) were
             // deserialized here first, as in a process that serves both schema versions
             let server = ctx.chance(1, 2);
-            let _ = guarded(|| de::<skewed::Tree>(mode, server, Source::Slice, &bytes, ReadPlan::default()));
+            let _ = guarded(|| de::<N>(mode, server, Source::Slice, &bytes, ReadPlan::default()));
             ctx.count("probe.c05_newer_schema_read_on_this_thread_first");
             ctx.log(|| format!("earlier on this thread: newer schema read by the {} deserializer", if server { "server" } else { "client" }));
         }
-        self.c05_check::<plain::Tree>(ctx, mode, &bytes, &expected, &["xa_first", "xm_middle", "xz_last", "xm\"mid\\dle\n"], has_extras, faults, "model::Tree");
+        self.c05_check::<P>(ctx, mode, &bytes, expected, &["xa_first", "xm_middle", "xz_last", "xm\"mid\\dle\n"], has_extras, faults, what);
     }
 
     #[allow(clippy::too_many_arguments)]
@@ -1339,7 +1412,7 @@ impl PipeEngine {
         let doc = ctx.with_tape(|t| irx.gen_doc(&ty, t, &mut k, 0));
         let text = doc.to_string();
         let Ok(expected) = json::client_from_str::<T>(&text) else {
-            ctx.violation("HARNESS", "generated_doc_rejected", format!("{} :: {}", name, clip(&text)));
+            ctx.violation("C05", "valid_document_refused_by_client_deserializer", format!("{} :: {}", name, clip(&text)));
             return;
         };
         // sometimes a member name JSON must write with escapes (then it cannot be borrowed from the input)
@@ -1533,6 +1606,13 @@ pub fn splice_unknown_smile(t: &mut Tape, ty: &Ty, doc: &mut serde_smile::value:
 }
 
 impl Engine for PipeEngine {
+    fn property(&self) -> &'static str {
+        match self.profile {
+            PipeProfile::C01 => "C01",
+            PipeProfile::C05 => "C05",
+        }
+    }
+
     fn name(&self) -> &'static str {
         match self.profile {
             PipeProfile::C01 => "pipe-c01",
@@ -1616,7 +1696,7 @@ impl PipeEngine {
                 let doc = ctx.with_tape(|t| irx.gen_doc(&ty, t, &mut k, 0));
                 match json::client_from_str::<crate::sim_ir::$name>(&doc.to_string()) {
                     Ok(v) => self.c01_value(ctx, &NoSpec(v), faults, stringify!($name)),
-                    Err(e) => ctx.violation("HARNESS", "generated_doc_rejected", format!("{} :: {}", e, doc)),
+                    Err(e) => ctx.violation("C01", "valid_document_refused_by_client_deserializer", format!("{} :: {}", e, doc)),
                 }
             }};
         }
